@@ -114,7 +114,7 @@ Variable LATEST : N.
 
 Ltac wl1 H := wer H; [|left; reflexivity].
 
-Lemma nf_move_element_position self mv pos : nf (move_element_position self mv pos).
+Lemma nf_move_element_position self mv pos e : nf (move_element_position self mv pos e).
 Proof. unfold move_element_position. nf_tac. Qed.
 
 Lemma move_local_fail self mv pos m version w e w' :
